@@ -1,3 +1,34 @@
-From Flodym Require Import Base.ND.
-Theorem placeholder : True. Proof. exact I. Qed.
-Print Assumptions placeholder.
+(* C20 — Sankey and line plots show the system's numbers under the right labels.  Statements only.
+   PARTIAL: figure assembly (which links with which end points and values; which lines) is modelled
+   and the assembly facts below are proved; rendering is plotly's / matplotlib's runtime. *)
+From Coq Require Import List Arith ZArith QArith Qcanon.
+Import ListNotations.
+From Flodym Require Import Base.ND Base.Env Np.Einsum Model.Dims Model.Array Model.SubArray Model.Instances Model.Export Proofs.ExportProofs.
+
+Theorem C20_links_run_between_the_right_nodes_with_the_sliced_total :
+  forall procs ep slice items_of f ls, links_of procs ep slice items_of f = Ok ls ->
+  (forall l, In l ls -> node_of procs ep (sf_from f) = Some (sl_source l) /\ node_of procs ep (sf_to f) = Some (sl_target l))
+  /\ (sf_split f = None -> exists fs,
+        getitem Qc QO (sf_arr f) (KDict (map (fun kv => (KLetter (fst kv), ISingle (snd kv)))
+                                          (filter (fun kv => memb (fst kv) (aletters Qc (sf_arr f))) slice))) = Ok fs
+        /\ ls = [mk_slink (match node_of procs ep (sf_from f) with Some s => s | None => 0%nat end)
+                          (match node_of procs ep (sf_to f) with Some t => t | None => 0%nat end) (sf_name f) (sum_all fs)]).
+Proof. exact links_of_spec. Qed.
+Print Assumptions C20_links_run_between_the_right_nodes_with_the_sliced_total.
+
+Theorem C20_node_is_position_among_shown_processes :
+  forall procs ep pid i, node_of procs ep pid = Some i -> nth_error (map snd (shown_processes procs ep)) i = Some pid.
+Proof. exact node_is_position_among_shown. Qed.
+Print Assumptions C20_node_is_position_among_shown_processes.
+
+Theorem C20_excluded_processes_are_not_nodes :
+  forall procs ep p, In p (shown_processes procs ep) -> ~ In (fst p) ep.
+Proof. exact excluded_process_is_not_a_node. Qed.
+Print Assumptions C20_excluded_processes_are_not_nodes.
+
+Theorem C20_hidden_flows_have_no_link :
+  forall procs ep ef slice items_of flows f ls,
+  sankey_links procs ep ef slice items_of flows = Ok ls -> flow_is_shown procs ep ef f = false ->
+  ~ In f (filter (flow_is_shown procs ep ef) flows).
+Proof. exact hidden_flow_has_no_link. Qed.
+Print Assumptions C20_hidden_flows_have_no_link.
